@@ -546,15 +546,17 @@ fn exec(cx: &mut Ctx, op: &Op, pc: usize) -> Option<u64> {
         }
         Op::AUnsyncLoad { a } => Some(unsafe { env.atomics[a as usize].unsync_load() }),
         Op::Await { a, o, v } => {
+            let mut waited = 0;
             loop {
                 let x = env.atomics[a as usize].load(o.to_std());
                 if x == v {
                     break;
                 }
+                waited = 1;
                 rec(tid, pc, HK::Spin, Some(x));
                 loom::thread::yield_now();
             }
-            None
+            Some(waited)
         }
         Op::AwaitY { a, o, v } => {
             loop {
